@@ -142,6 +142,11 @@ ResultOK(R) == /\ R.info = minfo
                      /\ ("resid" \in DOMAIN R => R.sinfo = 0 /\ R.resid <= 1000)   \* C01
                      /\ ("supno" \in DOMAIN R =>
                            /\ WellFormedLU(R)                    \* C09
+                           /\ ("colcnt" \in DOMAIN Cfg =>            \* C05: the predicted column counts dominate the actual L
+                                 \* (supernodes that start as relaxed supernodes carry artificial rows by design:
+                                 \*  their reserve is the slot, checked by SlotBound)
+                                 \A c \in Cols : LET f == R.xsup[R.supno[c]] IN
+                                    PType[f] = REGULAR => (R.lsubend[f] - R.lsubbeg[f]) - (c - f) <= Cfg.colcnt[c])
                            /\ \A c \in Cols : R.supno[c] = supno[c]
                            /\ \A s \in 1..nsuper : R.xsup[s] = xsupBeg[s] /\ R.xsupend[s] = xsupEnd[s]))
 TResult == Ev("Result") /\ Keepslot /\ mpc = "done" /\ (ResultOK(E) = TRUE) /\ UNCHANGED vars   \* "= TRUE": evaluate as a value, not as an action
